@@ -24,6 +24,7 @@ import (
 
 // Knobs bias the generator towards one property's interesting region.
 type Knobs struct {
+	XSeed      int64 // history seed, for the second stream of genGroup
 	Name       string
 	MinGroups  int
 	MaxGroups  int
@@ -60,6 +61,7 @@ type Knobs struct {
 
 type groupGen struct {
 	rng      *rand.Rand
+	rx       *rand.Rand // second per-group stream, for object shapes added late (keeps the first stream's histories)
 	shape    sim.PodShape
 	memBound bool
 }
@@ -136,6 +138,10 @@ func genGroup(k Knobs, r *rand.Rand, gi int, name string) (sim.GroupSpec, int64,
 		o.AWS.LaunchTemplateVersion = "1"
 		o.AWS.Lifecycle = pick(r, "", "on-demand", "spot")
 		o.AWS.FleetInstanceReadyTimeout = pick(r, "", "30s", "5s")
+		if rx := rand.New(rand.NewSource(k.XSeed*31 + int64(gi) + 7)); rx.Intn(10) == 0 {
+			// amounts to a ready-timeout of zero: every fleet request times out at once and is cleaned up
+			o.AWS.FleetInstanceReadyTimeout = pick(rx, "0s", "-30s", "60")
+		}
 		if r.Intn(2) == 0 {
 			o.AWS.InstanceTypeOverrides = []string{"m5.large", "m5a.large"}
 		}
@@ -187,6 +193,7 @@ func genGroup(k Knobs, r *rand.Rand, gi int, name string) (sim.GroupSpec, int64,
 // (used by the two-run comparisons); pass altGroup=-1 for ordinary runs.
 func NewRun(k Knobs, seed int64, rep *monitor.Report, caseID string, trace io.Writer, mutate func(specs []sim.GroupSpec, globalDry *bool), altGroup int, altSeed int64) (*Run, error) {
 	master := rand.New(rand.NewSource(seed))
+	k.XSeed = seed
 	ng := k.MinGroups
 	if k.MaxGroups > k.MinGroups {
 		ng += master.Intn(k.MaxGroups - k.MinGroups + 1)
@@ -236,7 +243,7 @@ func NewRun(k Knobs, seed int64, rep *monitor.Report, caseID string, trace io.Wr
 		if gi == altGroup {
 			gs = altSeed
 		}
-		gg := &groupGen{rng: rand.New(rand.NewSource(gs))}
+		gg := &groupGen{rng: rand.New(rand.NewSource(gs)), rx: rand.New(rand.NewSource(gs ^ 0x5ca1ab1e))}
 		gg.shape = pick(gg.rng, sim.ShapeSelector, sim.ShapeAffinity, sim.ShapeAffinityExclude)
 		gg.memBound = gg.rng.Intn(3) == 0
 		run.G = append(run.G, gg)
@@ -585,7 +592,11 @@ func (run *Run) applyOp(gi int, op string) {
 		}
 	case "annotate":
 		if n := preferTainted(); n != "" {
-			env.SetAnnotation(n, sim.NoDeleteAnno, pick(r, "true", "keep for debugging", "false", "x"), true)
+			val := pick(r, "true", "keep for debugging", "false", "x")
+			if run.G[gi].rx.Intn(5) == 0 {
+				val = pick(run.G[gi].rx, " ", "\t", "  ", "0", "no") // non-empty is non-empty
+			}
+			env.SetAnnotation(n, sim.NoDeleteAnno, val, true)
 			run.tracef("  op g%d annotate %s", gi, n)
 		}
 	case "annotate-empty":
@@ -606,6 +617,14 @@ func (run *Run) applyOp(gi int, op string) {
 			g.Max = g.Desired + int64(r.Intn(6))
 			if g.Max <= g.Min {
 				g.Max = g.Min + 1
+			}
+			if run.G[gi].rx.Intn(4) == 0 && g.Desired > 0 {
+				// the cloud group is pinned: minimum = maximum (still auto-discovered every scan)
+				g.Min = 1 + int64(run.G[gi].rx.Intn(int(g.Desired)))
+				g.Max = g.Min
+				if g.Max < g.Desired {
+					g.Max, g.Min = g.Desired, g.Desired
+				}
 			}
 			run.tracef("  op g%d asg-bounds min=%d max=%d", gi, g.Min, g.Max)
 		}
@@ -761,6 +780,17 @@ func (run *Run) Step(s int) *monitor.ScanCtx {
 		r := run.G[gi].rng
 		if s == 0 && k.Setup != "from-zero" {
 			run.opLoad(gi, "")
+		}
+		if rx := run.G[gi].rx; rx.Intn(12) == 0 {
+			// kubelet trouble: a node reports NotReady / Unknown for a while (escalator does not look at conditions)
+			if names := env.GroupNodeNames(gi); len(names) > 0 {
+				n := names[rx.Intn(len(names))]
+				st := pick(rx, v1.ConditionFalse, v1.ConditionUnknown, v1.ConditionTrue)
+				env.K.MutateNode(n, func(x *v1.Node) {
+					x.Status.Conditions = []v1.NodeCondition{{Type: v1.NodeReady, Status: st}}
+				})
+				run.tracef("  op g%d node %s Ready=%s", gi, n, st)
+			}
 		}
 		if r.Float64() < 0.7 {
 			run.applyOp(gi, weighted(r, k.Ops))
